@@ -892,3 +892,9 @@ mutant("split-single-def", "C10", GRAPH, "    solver.ensure(is_passed_single == 
 mutant("split-gv-order", "C10", GRAPH, "            gv.append(is_passed_double_horizontal[y, x])\n            gv.append(is_passed_double_vertical[y, x])", "            gv.append(is_passed_double_vertical[y, x])\n            gv.append(is_passed_single[y, x])", "SPLIT")
 variant("fdt-degree-range", "C10", GRAPH, "                solver.ensure((is_passed[y, x] & ~is_cross[y, x]).then(d >= 1))\n                solver.ensure((is_passed[y, x] & ~is_cross[y, x]).then(d <= 2))", "                solver.ensure((is_passed[y, x] & ~is_cross[y, x]).then((d == 1) | (d == 2)))")
 variant("split-halves-swapped", "C10", GRAPH, ["            g.add_edge(eid, v0 + 2)\n            g.add_edge(eid, v1)\n            g.add_edge(eid, v1 + 2)", "            g.add_edge(eid, v0 + 1)\n            g.add_edge(eid, v1)\n            g.add_edge(eid, v1 + 1)", "@@A@@"], ["@@A@@", "            g.add_edge(eid, v0 + 2)\n            g.add_edge(eid, v1)\n            g.add_edge(eid, v1 + 2)", "            g.add_edge(eid, v0 + 1)\n            g.add_edge(eid, v1)\n            g.add_edge(eid, v1 + 1)"], "a consistent swap of the two pass-through halves is behaviour-preserving")
+
+# ---- C11 kinds -------------------------------------------------------------------------------------
+mutant("dk-yajilin-slice-bound", "C11", PZ + "yajilin.py", "count_true(black_cell[(y + 1) : height, x])", "count_true(black_cell[(y + 1) : width, x])", "DK", "slice bounds clamp silently: only the kind analysis sees it")
+# blind spot: min(y + 1, width) on the row axis mixes a row value with a column value inside min(); mixed kinds are never reported (max(height, width) is legitimate)
+mutant("dk-nurimisaki-compare-only", "C11", PZ + "nurimisaki.py", "                        cand.append(fold_and(is_white[y, (x + 1) : (x + n)], ~is_white[y, x + n]))", "                        cand.append(fold_and(is_white[y, (x + 1) : (x + n)], ~is_white[x + n, y]))", "DK")
+variant("dk-value-bound-mixed", "C11", PZ + "view.py", "    nums = solver.int_array((height, width), 0, height + width)", "    nums = solver.int_array((height, width), 0, width + height)")
